@@ -1,14 +1,20 @@
 #!/bin/bash
-# tools/seed_sweep.sh [ids...] -- runs the owning property's quick check against every kept seeded change, records the outcome in its meta.json
+# tools/seed_sweep.sh [ids...] -- runs the owning property's quick check against every kept seeded change (and, when the owner
+# misses it, the checks listed under "cross_checks" in its meta.json: some changes break a neighbouring property's statement
+# more directly than the one they were written for), records the outcome in its meta.json
 cd /verif
 IDS=${@:-$(ls seeded)}
 for id in $IDS; do
   P=${id%%-*}
   [ -f seeded/$id/patch.diff ] || continue
-  out=$(LINES_MAX=40 timeout 2400 tools/seedtest.sh $P seeded/$id/patch.diff 2>&1)
-  rc=$(echo "$out" | grep -o "exit=[0-9]*" | tail -1 | cut -d= -f2)
+  CROSS=$(/venv/bin/python -c "import json;print(' '.join(json.load(open('/verif/seeded/$id/meta.json')).get('cross_checks', [])))")
+  for Q in $P $CROSS; do
+    out=$(LINES_MAX=40 timeout 2400 tools/seedtest.sh $Q seeded/$id/patch.diff 2>&1)
+    rc=$(echo "$out" | grep -o "exit=[0-9]*" | tail -1 | cut -d= -f2)
+    [ "$rc" = "1" ] && break
+  done
   sigs=$(echo "$out" | grep "^  signature" | grep -v KNOWN | sed 's/ count=.*//; s/^  signature=//' | sort -u | head -4 | tr '\n' ' ')
-  /venv/bin/python - "$id" "$P" "$rc" "$sigs" <<'PY'
+  /venv/bin/python - "$id" "$Q" "$rc" "$sigs" <<'PY'
 import json, sys, time
 id_, p, rc, sigs = sys.argv[1:5]
 f = f'/verif/seeded/{id_}/meta.json'
@@ -16,6 +22,6 @@ m = json.load(open(f))
 m['detected_by'] = dict(check=f'./check {p} --tier quick (VERIF_REPO = scratch copy of /repo with patch.diff applied)', exit_code=int(rc or -1),
                         detected=(rc == '1'), signatures=sigs.split())
 json.dump(m, open(f, 'w'), indent=1)
-print(id_, 'DETECTED' if rc == '1' else f'MISSED(rc={rc})', sigs[:160])
+print(id_, f'DETECTED by {p}' if rc == '1' else f'MISSED(rc={rc})', sigs[:160])
 PY
 done
